@@ -66,9 +66,13 @@ ASSUMPTIONS = [
     "is visible in mtime_ns; the checks run as root, so permission failures are not modelled",
 ]
 
-UA = "11111111-2222-4333-8444-555555555555"       # pre-existing identifier (v4)
+# The pre-existing identifier MUST contain hex letters: the first version used 11111111-2222-4333-8444-555555555555,
+# whose upper-case spelling is itself, so the "upper" kind silently coincided with "A" (a seeded change that returns
+# upper-case hyphenated identifiers verbatim was missed). _alphabet_is_sharp() now refuses coinciding kinds.
+UA = "a1b2c3d4-e5f6-4a7b-8c9d-0e1f2a3b4c5d"       # pre-existing identifier (v4)
 UB = "bbbbbbbb-bbbb-4bbb-8bbb-bbbbbbbbbbbb"       # subscription identity answer (v4)
-UNV4 = "11111111-2222-1333-c444-555555555555"     # parses as a UUID, not version 4
+UNV4 = "a1b2c3d4-e5f6-1a7b-cc9d-0e1f2a3b4c5d"     # parses as a UUID, not version 4
+UMIX = UA.replace("a", "A", 1)                    # exactly one upper-case hex digit
 CANON_RE = re.compile(r"^[0-9a-f]{8}-[0-9a-f]{4}-[0-9a-f]{4}-[0-9a-f]{4}-[0-9a-f]{12}$")
 # what the oracle calls an existing VALID identifier file: anything that parses as a UUID - hyphenated or the legacy
 # un-hyphenated form (the property's quantifier names it), any letter case, optional surrounding white space.
@@ -110,8 +114,11 @@ MID_KINDS = collections.OrderedDict([
     ("garbage", (("f", "not-a-uuid"), None)),
     ("link:A", (("l", T_ID), UA)),
     ("link:dangling", (("l", T_IDNO), None)),
-    # thorough only from here
     ("upper", (("f", UA.upper()), None)),
+    # full marker-layout product with these only in thorough; quick has them in the one-directory components
+    ("mixed", (("f", UMIX), None)),
+    ("LEGACY", (("f", UA.replace("-", "").upper()), None)),
+    ("upper_nl", (("f", UA.upper() + "\n"), None)),
     ("nonv4", (("f", UNV4), None)),
     ("ws", (("f", "\n"), None)),
     ("A_crlf", (("f", UA + "\r\n"), None)),
@@ -119,9 +126,10 @@ MID_KINDS = collections.OrderedDict([
     ("braced", (("f", "{" + UA + "}"), None)),
     ("bom", (("f", "\xef\xbb\xbf" + UA), None)),          # bytes EF BB BF in front (latin-1 spelled)
     ("link:legacy", (("l", T_ID), UA.replace("-", ""))),
+    ("link:upper", (("l", T_ID), UA.upper())),
     ("link:empty", (("l", T_ID), "")),
 ])
-QUICK_MID = ["absent", "A", "A_nl", "legacy", "empty", "garbage", "link:A", "link:dangling"]
+QUICK_MID = ["absent", "A", "A_nl", "legacy", "upper", "empty", "garbage", "link:A", "link:dangling"]
 SMALL_MID = ["absent", "A", "legacy", "empty", "link:A", "link:dangling"]
 MARKER_KINDS = {"absent": None, "file": ("f", "M"), "link": ("l", T_OK), "dangling": ("l", T_NO),
                 # single-deviation kinds: an empty regular file, a symlink to the identifier file, a symlink to a directory
@@ -137,10 +145,11 @@ ANSWERS = collections.OrderedDict([
     ("BHEX", UB.replace("-", "")),
     ("err", IOError),          # configuration present, certificate unreadable
     ("BUP", UB.upper()),
+    ("BMIX", UB.replace("b", "B", 1)),
     ("garbage", "not-a-uuid"),
 ])
 NO_IDENTITY = ("none", "empty", "err")
-QUICK_ANSWERS = ["none", "B", "empty", "BHEX"]
+QUICK_ANSWERS = ["none", "B", "empty", "BHEX", "BUP"]
 MARKER_EVENTS = ["reg", "unreg", "delreg", "delunreg"]
 
 
@@ -167,7 +176,8 @@ EXTRA = [  # (dirs, order)
 ]
 
 BOUNDS = {
-    "quick": {"main_components": "2 directories, presence {11,10,01,00} x machine-id kinds %s x EVERY combination of "
+    "quick": {"main_components": "2 directories, presence {11,10,01,00} x machine-id kinds %s (ALL kinds and ALL answers where at most one "
+                                 "directory exists) x EVERY combination of "
                                  "{absent, file, symlink->file, dangling symlink} at the 4 marker locations (incl. all "
                                  "layouts with both markers present); events: read/new x answers %s, reg, unreg, delreg, "
                                  "delunreg, 8 marker plantings" % (QUICK_MID, QUICK_ANSWERS),
@@ -681,6 +691,8 @@ def judge(ev, before, after, obs, last, n):
         stored = forced_v4(before[idf][1]) if idf is not None else None
         if obs[0] == "id":
             r = obs[1]
+            # canonical = the text uuid.UUID renders: lower-case 8-4-4-4-12 (CANON_RE matches exactly the strings r
+            # with r == str(uuid.UUID(r))); compared as returned, nothing is normalised before any comparison here
             if not (isinstance(r, str) and CANON_RE.match(r)):
                 out.append(("id:not-canonical-uuid", "8-4-4-4-12 lower-case hex", repr(r), {}))
             if base == "read" and last is not None and r != last:
@@ -856,9 +868,12 @@ def unit_spec(unit, tier):
     order = unit.get("order", "fwd")
     n = len(dirs)
     thorough = tier == "thorough"
-    answers = list(ANSWERS) if thorough else QUICK_ANSWERS
+    # spelling classes are cheap and every one of them is a branch of the code: quick has ALL identifier kinds and ALL
+    # answers in the components with at most one usable directory; only the two-directory product is thinned out
+    small = sum(1 for d in dirs if d in (1, 2)) <= 1
+    answers = list(ANSWERS) if (thorough or (small and unit["part"] == "main")) else QUICK_ANSWERS
     if unit["part"] == "main":
-        mids = list(MID_KINDS) if thorough else QUICK_MID
+        mids = list(MID_KINDS) if (thorough or small) else QUICK_MID
         mids = [m for m in mids if m.startswith("link") == (unit["mid_class"] == "link")]
         layouts = full_layouts(dirs, exotic=thorough)
         events = id_events(answers) + MARKER_EVENTS + plant_events(n)
@@ -881,7 +896,27 @@ OP_INITS = [{"dirs": [1, 1], "mid": m, "reg": [k, k], "unreg": [k, k]}
             for m in ("absent", "A", "legacy", "empty") for k in ("absent", "file")]
 
 
+def _alphabet_is_sharp():
+    """Vacuity guard on the alphabet itself: two identifier kinds (or answers) that the canonical form cannot tell apart
+    are one kind, and the enumeration would silently cover less than it claims."""
+    seen = {}
+    for name, (ment, idt) in MID_KINDS.items():
+        content = ment[1] if (ment is not None and ment[0] == "f") else idt
+        key = (None if ment is None else ment[0], None if ment is None or ment[0] == "f" else ment[1],
+               None if content is None else id_class(content, None))
+        if key in seen:
+            raise RuntimeError("C17 alphabet: identifier kinds %r and %r coincide" % (seen[key], name))
+        seen[key] = name
+    if len(set(map(repr, ANSWERS.values()))) != len(ANSWERS):
+        raise RuntimeError("C17 alphabet: two subscription answers coincide")
+    for name in ("upper", "mixed", "LEGACY", "upper_nl"):
+        c = MID_KINDS[name][0][1]
+        if c == c.lower() or forced_v4(c) != UA:
+            raise RuntimeError("C17 alphabet: kind %r is not a case variant of the identifier" % name)
+
+
 def units(tier, seed):
+    _alphabet_is_sharp()
     us = []
     for dirs in MAIN_DIRS:
         for cls in ("nolink", "link"):
